@@ -545,15 +545,23 @@ func runHedgedRetry(t harness.TB, st *harness.Stats, sc hedgedScen) {
 		case <-harness.After(30 * time.Second):
 			harness.Violation(t, cfg.Prop, test, "hedged-retry-hangs", sc, "%+v: the call did not return", sc)
 		}
-		// abandoned attempts may still be running through their listeners
-		time.Sleep(300 * time.Microsecond)
-		mu.Lock()
-		c := map[string]int{}
-		for k, n := range counts {
-			c[k] = n
+		// abandoned attempts may still be on their way into the function or through their listeners: a hedge that was
+		// announced just before the execution ended enters the function whenever its goroutine gets to run
+		var c map[string]int
+		var ent int
+		for settle := harness.Wait(10 * time.Second); ; {
+			time.Sleep(300 * time.Microsecond)
+			mu.Lock()
+			c = map[string]int{}
+			for k, n := range counts {
+				c[k] = n
+			}
+			ent = entered
+			mu.Unlock()
+			if ent >= 1+c["OnHedge"]+c["OnRetry"] || settle.Expired() {
+				break
+			}
 		}
-		ent := entered
-		mu.Unlock()
 		_ = finished
 		bad := func(sig, f string, a ...any) {
 			harness.Violation(t, cfg.Prop, test, sig, sc, "%+v (result %d,%v; %d invocations): %s; events %v", sc, v, err, ent, fmt.Sprintf(f, a...), c)
